@@ -1,7 +1,7 @@
 package main
 
 // T3 determinism facts for property C11: every place in the non-test packages where run-to-run
-// nondeterminism can enter — `range` over a map (Go randomises the order), time.Now, os.Getpid,
+// nondeterminism can enter — `range` over a map (Go randomises the order), time.Now, os.Getpid (and elapsed time, host / user / environment lookups, temporary names, a file's ModTime()),
 // `go` statements, and uses of math/rand — with a syntactic classification of what a map-ordered
 // loop does.  Output: lean/Gv/Gen/DetFacts.lean.
 //
@@ -325,6 +325,21 @@ func emitDetFacts(repo, out string) {
 							if (pk.Name == "time" && s.Sel.Name == "Now") || (pk.Name == "os" && s.Sel.Name == "Getpid") {
 								sites = append(sites, detSite{x.path, fd.Name.Name, pk.Name + "." + s.Sel.Name, "", "", fset.Position(t.Pos()).Line})
 							}
+							// further values that differ from run to run: elapsed time, process / host / user identity, the
+							// environment, temporary names, hash seeds
+							if (pk.Name == "time" && (s.Sel.Name == "Since" || s.Sel.Name == "Until")) ||
+								(pk.Name == "os" && (s.Sel.Name == "Getppid" || s.Sel.Name == "Hostname" || s.Sel.Name == "Getuid" ||
+									s.Sel.Name == "Getenv" || s.Sel.Name == "Environ" || s.Sel.Name == "LookupEnv" || s.Sel.Name == "TempDir" ||
+									s.Sel.Name == "CreateTemp" || s.Sel.Name == "MkdirTemp" || s.Sel.Name == "Getwd")) ||
+								(pk.Name == "maphash" && s.Sel.Name == "MakeSeed") {
+								sites = append(sites, detSite{x.path, fd.Name.Name, "env:" + pk.Name + "." + s.Sel.Name, "", "", fset.Position(t.Pos()).Line})
+							}
+						}
+						// file metadata (the modification time of a file created by this run is the clock)
+						if s.Sel.Name == "ModTime" {
+							sites = append(sites, detSite{x.path, fd.Name.Name, "env:file.ModTime", "", "", fset.Position(t.Pos()).Line})
+						}
+						if pk, ok := s.X.(*ast.Ident); ok {
 							if pk.Name == "rand" && (s.Sel.Name == "Seed" || s.Sel.Name == "New" || s.Sel.Name == "NewSource") {
 								sites = append(sites, detSite{x.path, fd.Name.Name, "rand." + s.Sel.Name, "", "", fset.Position(t.Pos()).Line})
 							}
